@@ -1,8 +1,8 @@
 (* C34 — Ordered sets behave as insertion-ordered sets and sequences.
    Only statements, closed by [exact]; see Models/C34.v (model) and Proofs/C34.v (proofs). *)
 From Coq Require Import List ZArith.
-From Verif Require Import Models.C34 Proofs.C34.
-Import ListNotations. Import C34. Open Scope Z_scope.
+From Verif Require Import Models.C34 Proofs.C34 Models.C34Heap Proofs.C34Heap.
+Import ListNotations. Import C34. Import C34H. Open Scope Z_scope.
 
 (* Every reachable state is duplicate free (it is a set), for every history. *)
 Theorem C34_set_invariant : forall init ops, NoDup (run init ops).
@@ -66,3 +66,52 @@ Theorem C34_one_traversal : forall l o, NoDup l ->
   step l (retag KIter o) = step l (retag KList o).
 Proof. exact one_traversal. Qed.
 Print Assumptions C34_one_traversal.
+
+(* Sequence protocol: index(value, start, stop) with negative bounds.  On a set the answer is the
+   position of the value exactly when it lies in the normalised window, otherwise ValueError. *)
+Theorem C34_index_range_exact : forall l x start stop p, NoDup l -> 0 <= p ->
+  norm_start (len l) start <= p < norm_stop (len l) stop -> nth_error l (Z.to_nat p) = Some x ->
+  index_range l x start stop = OInt p.
+Proof. exact index_range_exact. Qed.
+Print Assumptions C34_index_range_exact.
+
+Theorem C34_index_range_sound : forall l x start stop p,
+  index_range l x start stop = OInt p ->
+  norm_start (len l) start <= p < norm_stop (len l) stop /\ nth_error l (Z.to_nat p) = Some x.
+Proof. exact index_range_sound. Qed.
+Print Assumptions C34_index_range_sound.
+
+Theorem C34_index_range_total : forall l x start stop,
+  (exists q, index_range l x start stop = OInt q) \/ index_range l x start stop = OErr ValueError.
+Proof. exact index_range_total. Qed.
+Print Assumptions C34_index_range_total.
+
+(* ---- several objects (Models/C34Heap.v): ordered sets are values ---- *)
+
+(* The value of a mutable object after ANY history over a store of objects (constructors from other
+   objects, copies, freezes, operations on other objects, operations that take it as argument) is
+   the single-object run of exactly the operations applied to it: nothing else can reach it. *)
+Theorem C34_objects_independent : forall ops h j ob,
+  nth_error h j = Some ob -> frozen ob = false ->
+  nth_error (hrun h ops) j =
+    Some {| frozen := false; items := fold_left (fun l o => fst (step l o)) (proj j ops) (items ob) |}.
+Proof. exact hrun_independent. Qed.
+Print Assumptions C34_objects_independent.
+
+(* A frozen object keeps its value for ever, whatever is built from it or applied to it. *)
+Theorem C34_frozen_immutable : forall ops h j ob,
+  nth_error h j = Some ob -> frozen ob = true -> nth_error (hrun h ops) j = Some ob.
+Proof. exact hrun_frozen. Qed.
+Print Assumptions C34_frozen_immutable.
+
+(* OrderedSet(x) / FrozenOrderedSet(x) / copy / freeze of a reachable object has exactly its value. *)
+Theorem C34_copy_same_value : forall h i fr ob, heap_ok h ->
+  nth_error h i = Some ob ->
+  nth_error (fst (hstep h (HNewFrom i fr))) (length h) = Some {| frozen := fr; items := items ob |}.
+Proof. exact hstep_copy_same_value. Qed.
+Print Assumptions C34_copy_same_value.
+
+(* Every object of every reachable store is duplicate free. *)
+Theorem C34_store_invariant : forall ops h, heap_ok h -> heap_ok (hrun h ops).
+Proof. exact hrun_ok. Qed.
+Print Assumptions C34_store_invariant.
